@@ -1,7 +1,9 @@
 """C05 — fn/defn argument binding: slot wiring of the lambda list into ast.arguments, guards, implicit return."""
+CANON = True
+
 import ast
 
-from .. import compq, idflow, placement, pyq
+from .. import boolfn, pm, compq, idflow, placement, pyq
 from ..pyflow import Reach
 from ..pysrc import dotted, norm
 
@@ -108,12 +110,20 @@ def check(ctx, src):
     a = pyq.contains(cas, lambda n: isinstance(n, ast.Call) and dotted(n.func) == "asty.arg")
     ctx.check(a is not None and {k.arg: norm(k.value) for k in a.keywords} == {"arg": "mangle(compiler._nonconst(sym))", "annotation": "ann_ast"}, "LL-WIRE", f"{R}|compile_arguments_set|arg",
               "asty.arg fields changed", R, cas.lineno, detail="arg=mangle(_nonconst(sym)), annotation=ann_ast")
-    pads = [n for n in ast.walk(cas) if isinstance(n, ast.Call) and norm(n) == "args_defaults.append(None)"]
-    conds = sorted(norm(p._parent.value if False else _if_of(p).test) for p in pads)
-    ctx.check(conds == ["isinstance(decl, List)", "not isinstance(decl, List) and is_kwonly"], "LL-WIRE", f"{R}|compile_arguments_set|padding",
-              f"None padding of defaults happens under {conds}", R, cas.lineno, witness="(fn [a b] …) gets defaults=[None, None] -> ValueError: more positional defaults than args", detail=str(conds))
-    dflt = pyq.contains(cas, lambda n: isinstance(n, ast.If) and norm(n.test) == "default is not None" and "args_defaults.append(ret.force_expr)" in [norm(s) for s in n.body])
-    ctx.check(dflt is not None, "LL-WIRE", f"{R}|compile_arguments_set|default-value", "a parameter's default value is not compiled and appended", R, cas.lineno, detail="append(ret.force_expr)")
+    # which list receives the defaults: the second element of the returned tuple
+    rt = next((r for r in ast.walk(cas) if isinstance(r, ast.Return) and isinstance(r.value, ast.Tuple) and len(r.value.elts) == 3), None)
+    dv = rt.value.elts[1].id if rt is not None and isinstance(rt.value.elts[1], ast.Name) else None
+    apps = [n for n in ast.walk(cas) if isinstance(n, ast.Call) and isinstance(n.func, ast.Attribute) and n.func.attr == "append" and isinstance(n.func.value, ast.Name) and n.func.value.id == dv and len(n.args) == 1]
+    pads = [n for n in apps if isinstance(n.args[0], ast.Constant) and n.args[0].value is None]
+    vals = [n for n in apps if n not in pads]
+    A = boolfn.Atoms(D="default is None", L="isinstance(decl, List)", K="is_kwonly")
+    feas = lambda e: e["D"] or e["L"]  # a default only ever comes from a [sym default] declaration
+    v, cex = boolfn.equivalent(pads, cas, A, lambda e: e["D"] and (e["L"] or e["K"]), feasible=feas)
+    ctx.decide("LL-WIRE", f"{R}|compile_arguments_set|padding", v if dv else None, f"None padding of defaults does not happen exactly for parameters without a default that are keyword-only or written as a list (differs for {cex})",
+               R, cas.lineno, witness="(fn [a b] …) gets defaults=[None, None] -> ValueError: more positional defaults than args / a required keyword-only parameter loses its slot", detail="default is None and (List or kwonly)")
+    v, cex = boolfn.equivalent(vals, cas, A, lambda e: not e["D"], feasible=feas)
+    okv = all(norm(n.args[0]).endswith(".force_expr") for n in vals) and bool(vals)
+    ctx.decide("LL-WIRE", f"{R}|compile_arguments_set|default-value", (v and okv) if v is not None and dv else None, f"a parameter's default value is not compiled and appended exactly when it has one (differs for {cex})", R, cas.lineno, detail="append(<compiled default>.force_expr)")
     # --- lambda vs def
     fl = rm.func("compile_function_lambda")
     ctx.require(fl is not None, "compile_function_lambda not found")
@@ -129,10 +139,18 @@ def check(ctx, src):
               detail="not (has_annotations or tp or body.stmts or is_async)")
     fnn = rm.func("compile_function_node")
     ctx.require(fnn is not None, "compile_function_node not found")
-    en = pyq.contains(fnn, lambda n: isinstance(n, ast.Assign) and norm(n.targets[0]) == "enode")
-    ctx.check(en is not None and norm(en.value) == "asty.Expr if scope.is_async and scope.has_yield else asty.Return" and isinstance(en._parent, ast.If) and norm(en._parent.test) == "body.expr",
-              "FN-SHAPE", f"{R}|compile_function_node|implicit-return", "the implicit return rule changed (Return of the last expression unless async generator)", R, fnn.lineno,
-              witness="(defn f [] 1) returns None / an async generator gets `return value`: SyntaxError", detail="Expr if async generator else Return")
+    # the node class wrapped around the final expression: Return, or Expr for an async generator - decided on the truth table
+    rsites = [n for n in ast.walk(fnn) if isinstance(n, ast.Assign) and dotted(n.value) == "asty.Return"]
+    esites = [n for n in ast.walk(fnn) if isinstance(n, ast.Assign) and dotted(n.value) == "asty.Expr"]
+    A2 = boolfn.Atoms(B="body.expr", A="scope.is_async", Y="scope.has_yield")
+    v1, c1 = boolfn.equivalent(rsites, fnn, A2, lambda e: e["B"] and not (e["A"] and e["Y"]))
+    v2, c2 = boolfn.equivalent(esites, fnn, A2, lambda e: e["B"] and e["A"] and e["Y"])
+    same_var = len({n.targets[0].id for n in rsites + esites if isinstance(n.targets[0], ast.Name)}) == 1 and bool(rsites) and bool(esites)
+    ev = rsites[0].targets[0].id if same_var else None
+    used = pyq.contains(fnn, lambda n: isinstance(n, ast.Call) and isinstance(n.func, ast.Name) and n.func.id == ev and any(k.arg == "value" and norm(k.value) == "body.expr" for k in n.keywords))
+    verdict = None if (v1 is None or v2 is None or not same_var or used is None) else (v1 and v2)
+    ctx.decide("FN-SHAPE", f"{R}|compile_function_node|implicit-return", verdict, f"the implicit return rule changed (Return of the last expression unless async generator; differs for {c1 or c2})", R, fnn.lineno,
+               witness="(defn f [] 1) returns None / an async generator gets `return value`: SyntaxError", detail="Expr if async generator else Return")
     y = rm.func("compile_yield_expression")
     ctx.require(y is not None, "compile_yield_expression not found")
     mark = pyq.contains(y, lambda n: isinstance(n, ast.If) and norm(n.test) == "is_inside_function_scope(compiler.scope)" and "nearest_python_scope(compiler.scope).has_yield = True" in [norm(s) for s in n.body])
@@ -147,10 +165,15 @@ def check(ctx, src):
     # --- calls
     cc = comp.cp.func("HyASTCompiler._compile_collect")
     ctx.require(cc is not None, "_compile_collect not found")
-    texts = [norm(n) for n in ast.walk(cc) if isinstance(n, ast.Call) and isinstance(n.func, ast.Attribute) and n.func.attr == "append"]
-    want = {"compiled_exprs.append(None)", "compiled_exprs.append(ret.force_expr)", "keywords.append(asty.keyword(expr, arg=None, value=ret.force_expr))",
-            "keywords.append(asty.keyword(expr, arg=mangle(arg), value=compiled_value.force_expr))"}
-    ctx.check(set(texts) == want, "CALL-WIRE", f"{compq.CP}|_compile_collect|appends", f"append sites changed: {sorted(set(texts) ^ want)}", compq.CP, cc.lineno, detail="4 append shapes")
+    # positionals and keywords go to separate lists (first and third element of the returned tuple), in encounter order (append)
+    rt2 = next((r for r in ast.walk(cc) if isinstance(r, ast.Return) and isinstance(r.value, ast.Tuple) and len(r.value.elts) == 3), None)
+    pos_l, kw_l = (rt2.value.elts[0].id, rt2.value.elts[2].id) if rt2 is not None and all(isinstance(e, ast.Name) for e in rt2.value.elts) else (None, None)
+    apps2 = [n for n in ast.walk(cc) if isinstance(n, ast.Call) and isinstance(n.func, ast.Attribute) and n.func.attr in ("append", "extend", "insert") and isinstance(n.func.value, ast.Name) and n.func.value.id in (pos_l, kw_l)]
+    kwc = [n for n in ast.walk(cc) if isinstance(n, ast.Call) and dotted(n.func) == "asty.keyword"]
+    okw = all(any(k is x for a in apps2 if a.func.value.id == kw_l for x in ast.walk(a)) for k in kwc) and bool(kwc)
+    ok_app = all(a.func.attr in ("append", "extend") for a in apps2) and len(apps2) >= 4
+    ctx.decide("CALL-WIRE", f"{compq.CP}|_compile_collect|appends", None if pos_l is None else (okw and ok_app), "keyword arguments must be appended (in encounter order) to the keyword list, positionals to the positional list",
+               compq.CP, cc.lineno, detail="append only; asty.keyword -> keywords")
     ctx.check(not any(isinstance(n, ast.Call) and isinstance(n.func, ast.Attribute) and n.func.attr in ("insert", "sort", "reverse") for n in ast.walk(cc)), "CALL-WIRE",
               f"{compq.CP}|_compile_collect|no-reorder", "arguments are reordered", compq.CP, cc.lineno, detail="no insert/sort/reverse")
     ret = [n for n in pyq.walk_no_nested(cc) if isinstance(n, ast.Return)]
